@@ -95,6 +95,7 @@ struct Session {
    celma::log::id_t logId = 0;
    bool made = false;
    unsigned nullToggle = 0;
+   unsigned alt = 0;
    int userFields = 0;                   // fields added by the user (separators not counted)
 
    ~Session() { dropScopes(); }
@@ -162,11 +163,14 @@ struct Session {
       vj::Line().str("e", "NewCreator").bytes("s", s).boolean("null", null).raw("fields", fieldsJson()).emit();
    }
    void width(long n) {
-      *creator << static_cast<int>(n);
+      // the stream operator and the member function are two spellings of the same operation
+      if (alt++ % 2 == 0) *creator << static_cast<int>(n);
+      else creator->setFixedWidth(static_cast<int>(n));
       vj::Line().str("e", "Width").num("n", n).raw("fields", fieldsJson()).emit();
    }
    void left() {
-      *creator << clf::left;
+      if (alt++ % 2 == 0) *creator << clf::left;
+      else creator->alignLeft();
       vj::Line().str("e", "Left").raw("fields", fieldsJson()).emit();
    }
    void formatString(const std::string& f) {
@@ -176,11 +180,14 @@ struct Session {
    void separator(const std::string& s) {
       const bool null = pickNull(s);
       CStr c(s, null);
-      *creator << clf::separator(c.get());
+      if (alt++ % 2 == 0) *creator << clf::separator(c.get());
+      else creator->setAutoSep(c.get());
       vj::Line().str("e", "Separator").bytes("s", s).boolean("null", null).raw("fields", fieldsJson()).emit();
    }
    void field(const std::string& k) {
-      if (k == "date") *creator << clf::date;
+      if (k == "level" && alt++ % 2 == 0) creator->field(clf::Definition::FieldTypes::msgLevel);
+      else if (k == "text" && alt++ % 2 == 0) creator->field(clf::Definition::FieldTypes::text);
+      else if (k == "date") *creator << clf::date;
       else if (k == "time") *creator << clf::time;
       else if (k == "time_ms") *creator << clf::time_ms;
       else if (k == "time_us") *creator << clf::time_us;
